@@ -186,7 +186,7 @@ def generate(rng: random.Random, tier: str) -> dict:
         steps.append(["drop", 1])
         crs_slots.remove(1)
         steps.append(["gc"])
-        steps.append(["flood", rng.choice([20, 70, 140, 140, 270, 530, 1100]), 0, xy])
+        steps.append(["flood", rng.choice([20, 70, 140, 140, 270, 530, 1100] + ([2200, 4200] if tier == "thorough" else [])), 0, xy])
         steps.append(["gc"])
         steps.append(["churn", rng.sample(CHURN_CODES, rng.choice([2, 3])), 0, xy])
         nsteps = len(steps) + rng.randint(0, 4)
